@@ -6,7 +6,7 @@ from contracts import urlutils_c as m
 
 def run(ded, repo, tier):
     driver.run_parallel(ded, [dict(module='contracts.urlutils_c', repo=repo, q='resolve_path_parts', variant=v, tier=tier,
-                                   clause_of={'*': 'remove_dot_segments'}, timeout=30 if tier == 'quick' else 120)
+                                   clause_of={'*': 'remove_dot_segments'}, cvc5_first=True, timeout=30 if tier == 'quick' else 120)
                               for v in ['any', 'dotfree']])
     ded.assume('path_parts is a finite sequence of str; idempotence follows from (output dot-free) + (identity on dot-free input) by composition')
     ded.trust('URL.navigate / parse / render are not under contract: the text-level RFC 3986 5.2 equality is decided by the bounded differential only')
